@@ -171,7 +171,7 @@ def readHistory (ctx : RdCtx) (s : RdState) (dirs : List Str) (name suffix : Opt
     match main with
     | .error e => (s, .error (e, false))
     | .ok main =>
-      let postfixes := if confDirs.isEmpty then [sfx ++ bs ".d"] else confDirs
+      let postfixes := if confDirs.isEmpty then [sfx ++ [0x2e, 0x64] /- ".d" -/] else confDirs
       let (s, r) := readLayers ctx join python nm sfx delim comment postfixes s dirs
       match r with
       | .error e => (s, .error (e, true))
@@ -213,10 +213,10 @@ def prepareConfig (kf : KeyFile) (project usrSubdir name : Option Str) : KeyFile
     | none => true
     | some n => n.isEmpty
   let (name', project', kf) :=
-    if dropinOnly then (project, (none : Option Str), { kf with confDirs := [bs ".d"] }) else (name, project, kf)
+    if dropinOnly then (project, (none : Option Str), { kf with confDirs := [[0x2e, 0x64] /- ".d" -/] }) else (name, project, kf)
   let usr := usrSubdir.getD []
-  let run := bs "/run"
-  let etc := bs "/etc"
+  let run := [0x2f, 0x72, 0x75, 0x6e] /- "/run" -/
+  let etc := [0x2f, 0x65, 0x74, 0x63] /- "/etc" -/
   let dirs : List Str :=
     match kf.rootPrefix, project' with
     | some r, some p => [r ++ SLASH :: usr ++ SLASH :: p, r ++ SLASH :: run ++ SLASH :: p, r ++ SLASH :: etc ++ SLASH :: p]
